@@ -85,6 +85,9 @@ func (p Params) Validate() error {
 	if err := validateUint64("sampling try count", true)(p.SamplingTryCount); err != nil {
 		return err
 	}
+	if p.SamplingTryCount > MaxSamplingTryCount {
+		return fmt.Errorf("sampling try count must not exceed %d: %d", MaxSamplingTryCount, p.SamplingTryCount)
+	}
 	if err := validateUint64("oracle reward percentage", false)(p.OracleRewardPercentage); err != nil {
 		return err
 	}
